@@ -8,6 +8,13 @@ CLAIMS = {
                 note='Assumes the encoder model of CPython list/array primitives, mathematical integers, no aliasing between inner lists; z3/cvc5 trusted. '
                      'Functions outside the encoder subset are reported undecided, never passed.'),
 }
+CLAIMS['C33'] = dict(engine='pyvc (E1) + rtc (E3)', category='proof',
+    technique='contract-based deductive verification: inductive class invariant over start/update proved from the AST (z3, loop invariants, ghost recursive sums, induction lemma); run-time contracts on real samplers as bounded stand-in',
+    text='start() establishes and update() preserves, for all interaction tables, occupations and site lists, the invariant that cluster counts and '
+         'occupied/unoccupied sets are functions of the occupation; E() is a function of the counts: so the state after any history equals a fresh start. '
+         'deltaE_trial == realised energy change is a run-time contract (B) over exhaustive small tables and catalogue samplers.',
+    note='Assumes the table invariant established by the constructor (checked at run time only), the encoder model of CPython/numpy primitives, reals for energies.')
+
 NOT_APPLICABLE = {
     'C01': 'no contract within reach: the postcondition "equals the infinite-dilution limit of the exact Markov chain, to integration accuracy" needs an independent infinite-lattice solver as oracle (differential testing, a different technique) and no SMT/CAS obligation expresses a quadrature error; the discrete mechanisms it rests on are claimed in C24-C26, its invariances in C04, its sum rules in C06',
     'C05': 'a 2-safety statement about the Loewner order of two outputs (Rayleigh monotonicity): a variational theorem of detailed balance, not an invariant of any loop or a postcondition of one call; its only executable form is a numeric comparison of two runs (testing, not contract checking)',
